@@ -340,6 +340,12 @@ theorem IdInv_armReplay {o : Outbound} (h : o.IdInv) : (o.armReplay).IdInv := by
   · exact h
   · apply IdInv_of_same_ids h <;> simp [markRetainedDup, Function.comp_def]
 
+theorem IdInv_dropPingreq {o : Outbound} (h : o.IdInv) : (o.dropPingreq).IdInv :=
+  IdInv_of_same_ids h rfl rfl
+
+theorem IdInv_rearm {o : Outbound} (h : o.IdInv) : (o.rearm).IdInv :=
+  IdInv_armReplay (IdInv_dropPingreq h)
+
 theorem IdInv_queueControl {o o' : Outbound} {a : ControlAction} (h : o.IdInv) (hq : o.queueControl a = some o') : o'.IdInv := by
   unfold queueControl at hq
   split at hq
